@@ -1148,6 +1148,17 @@ fn shape(n_rules: usize, n_terms: usize) -> BoxedStrategy<(usize, Vec<Expr>)> {
         (r(), r(), r(), t()).prop_map(|(a, b, c, x)| (a, vec![Expr::Seq(vec![Expr::Opt(Box::new(Expr::N(b))), Expr::Star(Box::new(Expr::N(c))), x])])),
         // mutual recursion: A: t B | t
         (r(), r(), t(), t()).prop_map(|(a, b, x, y)| (a, vec![Expr::Seq(vec![x, Expr::N(b)]), y])),
+        // the same element repeated at two sites whose counts are related: A: e{m,m+k} t e{k} (or e{k,} / e{k,k+j}), either order
+        (r(), prop_oneof![r().prop_map(Expr::N), t()], t(), 0u32..=2, 1u32..=3, 0u8..3, 1u32..=2, any::<bool>()).prop_map(|(a, e, x, m, k, kind, j, swap)| {
+            let bounded = Expr::Rep(Box::new(e.clone()), m, Some(m + k));
+            let exact = match kind {
+                0 => Expr::Rep(Box::new(e), k, Some(k)),
+                1 => Expr::Rep(Box::new(e), k, None),
+                _ => Expr::Rep(Box::new(e), k, Some(k + j)),
+            };
+            let seq = if swap { vec![exact, x, bounded] } else { vec![bounded, x, exact] };
+            (a, vec![Expr::Seq(seq)])
+        }),
     ]
     .boxed()
 }
